@@ -12,10 +12,10 @@ CLAIMS = {
          "R06a: no feasible drop/absorbing-combinator/unreviewed-move of an expression-originated ExpressionError can still hold `Return`; "
          "R06b: Return->value conversion exists in Runtime::resolve and in every closure Runner entry point; R06c: inside every expression's resolve a child "
          "is evaluated only while all earlier children succeeded (nothing of the same expression runs after a return; P-VAR on the children's Results); "
-         "R06d: the Return payload is taken out only in Runtime::resolve and Runner::call. Necessary conditions of C06; the returned value is not decided.", "§4 C06"),
+         "R06d: the Return payload is taken out only in Runtime::resolve and Runner::call; R06e: every body invoking a closure Runner hands the Runner's Result on and never re-invokes it after a failure. Necessary conditions of C06; the returned value is not decided.", "§4 C06"),
  "C07": ("absorb-site dataflow (P-VAR over MIR) + outcome-mapping check in Runtime::resolve",
          "R07a: no feasible absorb site of an expression-originated ExpressionError can still hold `Abort`; R07b: Runtime::resolve maps Abort "
-         "to Terminate::Abort and never to Error/Ok; R07c: inside every expression's resolve no child is evaluated after an earlier child aborted. "
+         "to Terminate::Abort and never to Error/Ok; R07c: inside every expression's resolve no child is evaluated after an earlier child aborted; R07d: closure-taking functions stop iterating at the first failed closure invocation. "
          "This is essentially the whole interception mechanism; message contents are not decided.", "§4 C07"),
  "C13": ("must-pass-through (release on all exits) over MIR CFG + who-may-call + compile-time twin pairing",
          "R13a: each closure::insert is post-dominated on all non-unwind paths by closure::cleanup of the same ident with the saved value; "
@@ -33,7 +33,7 @@ CLAIMS.update({
          "to a `dyn Target` method derives from such a recorded source. Does not decide ancestor/descendant coverage semantics.", "§4 C16"),
  "C17": ("error-discipline classification of the consumers of every `dyn Target` call result + variant dataflow of the root check",
          "R17a: results of all `dyn Target` calls are consumed by .ok()-chains / drop / match, never unwrap/expect/`?`; R17b: Runtime::resolve "
-         "turns a failed or empty root read into Terminate::Error before the program starts.", "§4 C17"),
+         "turns a failed or empty root read into Terminate::Error before the program starts; R17c: no mutation on a failure edge; R17d: at most one mutating target operation per path.", "§4 C17"),
 })
 
 CLAIMS.update({
